@@ -854,6 +854,7 @@ func TestCheck(t *testing.T) {
 			}
 			stt := explore.Run(mkBody(b, cfgs), explore.Options{Workers: env.Workers, Deadline: dl, Setup: setup, Samples: 2, MaxViol: 40})
 			closeBadgers()
+			debug.FreeOSMemory() // a collection now: the next family's heap target must not inherit this family's databases
 			evals += stt.Executions
 			distinct += stt.Outcomes
 			if !stt.Exhaustive {
